@@ -29,16 +29,13 @@
          (runMulti takeUntilM (Sources.hot scripts) sub order).out = Spec.takeUntil true (heard2 (eventsOf …))
      fails — `takeUntil_signal_error_witness`, `skipUntil_signal_error_witness`; it holds whenever no
      error of the signal is heard (`takeUntil_partial`, `skipUntil_partial`).
-   * RaceWith does not keep the subscription of a source that wins synchronously inside `Subscribe`
-     (operator_combining.go:1076-1085): FULL statement "after an external Unsubscribe every subscribed
-     source is released" fails — `race_sync_winner_witness`; it holds when all sources are hot
-     (`race_cut_releases_partial`).
-   * TakeUntil under true concurrency (sources on different goroutines): the signal's callback raises the
-     flag and only then completes the destination (operator_filter.go:537-540); in between the source can
-     have a value skipped and deliver its own terminal. FULL statement "the output is the definition's
-     output for SOME compatible arrival order" fails — `takeUntil_concurrent_window_witness` over the
-     micro-step model RoModel/Multi/Micro.lean (found by the free-running search, replayed on the real code by
-     `kind=multipark`). The logical theorems above are unaffected (each notification processed to quiescence).
+
+  Repaired since the first version of this file (the model follows the code):
+   * RaceWith used to lose the subscription of a source that wins synchronously inside `Subscribe`
+     (fix 5ca7c2d): `race_cut_releases` / `race_done_releases` now hold for ANY mix of hot and synchronous sources.
+   * TakeUntil used to raise its flag before completing the destination (fix 3e5361a); with the repaired order
+     the micro-step model (RoModel/Multi/Micro.lean) satisfies the concurrent clause: `takeUntil_concurrent` — every
+     schedule of atomic actions delivers the definition's output for SOME compatible arrival order.
 -/
 import RoProofs.MultiUntil
 import RoProofs.MultiSample
@@ -46,6 +43,7 @@ import RoProofs.MultiRace
 import RoProofs.MultiMerge
 import RoProofs.MultiOrder
 import RoProofs.MultiMergeAll
+import RoProofs.MultiMicro
 import RoModel.Multi.Micro
 namespace Ro.C05a
 open Ro Ro.Multi
@@ -145,21 +143,30 @@ theorem race_losers_released (scripts : List (List (Notif α))) (sub : Ctx) (ord
     (runMulti (raceM scripts.length) (Sources.hot scripts) sub order).sopen j = false :=
   (race_end _ _ (hot_sync scripts) sub _).losers w x rest h j hj hjw
 
-/-- PARTIAL (all sources hot): an external Unsubscribe after any prefix of any interleaving releases
-    every source. The full statement (any mix of hot and synchronous sources) fails: see the witness. -/
-theorem race_cut_releases_partial (scripts : List (List (Notif α))) (sub : Ctx) (order : List Nat) (c : Nat)
-    (j : Nat) (hj : j < scripts.length) :
-    (runMultiCut (raceM scripts.length) (Sources.hot scripts) sub order c).sopen j = false := by
-  unfold runMultiCut runMulti
-  exact race_cut_then _ _ (hot_sync scripts) sub _ _ j hj
+/-- an external Unsubscribe after any prefix of any interleaving releases every subscribed source, and it
+    stays released — ANY mix of hot and synchronous sources (a source that wins inside its own `Subscribe`
+    included, since fix 5ca7c2d) -/
+theorem race_cut_releases (n : Nat) (cfg : Sources α) (sub : Ctx) (order : List Nat) (c : Nat) (k : Nat) :
+    (runMultiCut (raceM n) cfg sub order c).live k = false := by
+  unfold MSt.live
+  by_cases hk : (runMultiCut (raceM n) cfg sub order c).subs k = 0
+  · simp [hk]
+  · have := race_cut_releases_any n cfg sub (eventsOf cfg (order.take c))
+      (eventsFrom cfg (posAfter cfg (fun _ => 0) (order.take c)) (order.drop c)) k hk
+    unfold runMultiCut runMulti at hk ⊢
+    simp [this]
 
-/-- WITNESS: Race(s₀, s₁) where s₀ emits a value synchronously inside Subscribe (and does not terminate):
-    s₀ wins, its subscription is not stored, and after the final subscriber has unsubscribed s₀ is still
-    subscribed — never torn down. -/
-theorem race_sync_winner_witness :
-    (runMultiCut (raceM (α := Int) 2)
-      (Sources.ofLists [[.next { marks := [7, 1] } 11], [.next { marks := [7, 1] } 21]] [true, false]) { marks := [7] } [1] 0).live 0 = true := by
-  decide
+/-- the output has ended (the winner's error or completion) ⇒ every subscribed source is released — ANY mix
+    of hot and synchronous sources -/
+theorem race_done_releases (n : Nat) (cfg : Sources α) (sub : Ctx) (order : List Nat) (k : Nat)
+    (hd : (runMulti (raceM n) cfg sub order).downOpen = false) :
+    (runMulti (raceM n) cfg sub order).live k = false := by
+  unfold MSt.live
+  by_cases hk : (runMulti (raceM n) cfg sub order).subs k = 0
+  · simp [hk]
+  · have := Ro.Multi.race_done_releases n cfg sub (eventsOf cfg order) k hd hk
+    unfold runMulti at hk ⊢
+    simp [this]
 
 /-! ## TakeUntil / SkipUntil -/
 
@@ -206,32 +213,29 @@ theorem skipUntil_signal_error_witness :
     Spec.skipUntil true false (heard2 (eventsOf (Sources.hot wScriptsSkip) [0, 1, 0])) = [.error (wc 1) (.user 2)] := by
   decide
 
-/-! ## TakeUntil under true concurrency: the flag window
+/-! ## TakeUntil under true concurrency
 
 DESIGN.md 5/C05 asks, for sources driven by different goroutines, that the output be the definition's
-output for SOME arrival order compatible with each source's own order. For TakeUntil this fails: the
-signal's callback is two atomic actions (raise the flag, then complete the destination); in between,
-the source's next value is skipped and its error is delivered — `N11, E` is the output for no arrival
-order. (SkipUntil and ThrottleWhen touch one atomic flag only; the free-running search found no such
-run for them, nor for Merge, Race, SampleWhen.) -/
+output for SOME arrival order compatible with each source's own order. TakeUntil is the one operator of
+this half whose callback consists of two atomic actions (complete the destination, raise the flag);
+`RoModel/Multi/Micro.lean` models it at that granularity. For every pair of scripts and every schedule there is an
+arrival order `evs` (each source's notifications in their own order, up to its terminal) whose output —
+by the definition minus the signal's error, and by the logical machine — is the schedule's output. -/
 
-/-- all schedules over two threads of length ≤ n -/
-def ordersUpTo : Nat → List (List Nat)
-  | 0 => [[]]
-  | n + 1 => [] :: (ordersUpTo n).flatMap (fun o => [0 :: o, 1 :: o])
+theorem takeUntil_concurrent (source signal : List (Notif α)) (sched : List Nat) (sub : Ctx) :
+    ∃ evs : List (MEvent α),
+      (∀ e ∈ evs, e.1 < 2) ∧
+      Spec.ofSource 0 evs <+: gate source ∧ Spec.ofSource 1 evs <+: gate signal ∧
+      Micro.takeUntilMicro source signal sched = Spec.takeUntil false evs ∧
+      Micro.takeUntilMicro source signal sched =
+        (feedAll takeUntilM (Sources.hot [source, signal]) (bootSt takeUntilM (Sources.hot [source, signal]) sub) evs).out :=
+  Micro.takeUntilMicro_arrival source signal sched _ (hot_sync _) sub
 
 def wSrc : List (Notif Int) := [.next (wc 1) 11, .next (wc 2) 12, .error (wc 3) (.user 1)]
 def wSig : List (Notif Int) := [.next (wc 1) 21]
-
-/-- WITNESS (replayed on the real code by `kind=multipark`): schedule
-    source N11 · signal Store(ready) · source N12 (skipped) · source E1 (delivered) · signal Complete (refused)
-    delivers `N11, E1`; no interleaving of the two scripts (no schedule of whole notifications, of any length
-    up to 5 — the scripts have 4 notifications) makes TakeUntil deliver that. -/
-theorem takeUntil_concurrent_window_witness :
-    Micro.takeUntilMicro wSrc wSig [0, 1, 0, 0, 1] = [.next (wc 1) 11, .error (wc 3) (.user 1)] ∧
-    (ordersUpTo 5).all (fun o =>
-      (runMulti takeUntilM (Sources.hot [wSrc, wSig]) { marks := [7] } o).out != [.next (wc 1) 11, .error (wc 3) (.user 1)]) = true := by
-  decide
+-- the schedule that used to deliver `N11, E1` (flag raised, value skipped, error delivered, completion refused)
+example : Micro.takeUntilMicro wSrc wSig [0, 1, 0, 0, 1] = [.next (wc 1) 11, .complete (wc 1)] := by decide
+example : Micro.takeUntilMicro wSrc wSig [0, 0, 0, 1, 1] = [.next (wc 1) 11, .next (wc 2) 12, .error (wc 3) (.user 1)] := by decide
 
 /-! ## SampleWhen / ThrottleWhen -/
 
@@ -313,12 +317,12 @@ end Ro.C05a
 #print axioms Ro.C05a.race
 #print axioms Ro.C05a.race_releases
 #print axioms Ro.C05a.race_losers_released
-#print axioms Ro.C05a.race_cut_releases_partial
-#print axioms Ro.C05a.race_sync_winner_witness
+#print axioms Ro.C05a.race_cut_releases
+#print axioms Ro.C05a.race_done_releases
 #print axioms Ro.C05a.takeUntil_impl
 #print axioms Ro.C05a.takeUntil_partial
 #print axioms Ro.C05a.takeUntil_signal_error_witness
-#print axioms Ro.C05a.takeUntil_concurrent_window_witness
+#print axioms Ro.C05a.takeUntil_concurrent
 #print axioms Ro.C05a.skipUntil_impl
 #print axioms Ro.C05a.skipUntil_partial
 #print axioms Ro.C05a.skipUntil_signal_error_witness
